@@ -29,8 +29,6 @@ func extSortSlice(fr *frame, a []value) value {
 func registerEnv() {
 	externals["sort.Slice"] = extSortSlice
 	externals["sort.SliceStable"] = extSortSlice
-	externals["errors.Is"] = unsupported("errors.Is (reflection)")
-	externals["errors.As"] = unsupported("errors.As (reflection)")
 	errOf := func(fr *frame, msg string) value { return fr.i.callByName(fr, "errors.New", msg) }
 	externals["os.Open"] = func(fr *frame, a []value) value {
 		return tuple{(*value)(nil), errOf(fr, "open: no such file or directory (stub)")}
